@@ -25,7 +25,7 @@ C09_OPS = {
     "arith2": 4, "arith1": 3, "unary": 4, "item": 2, "to_dense": 2,
     "allclose": 2, "solve": 2, "phase": 6,
     "qr_recon": 2, "svd_recon": 2, "svdt_recon": 2, "eigh_recon": 2,
-    "convert": 2, "tdot_scalar": 1, "div_arrays": 2, "boolreduce": 1, "stale": 3,
+    "convert": 2, "tdot_scalar": 1, "div_arrays": 2, "boolreduce": 1, "stale": 3, "reassemble": 2,
 }
 
 
@@ -67,10 +67,13 @@ class C09(EngineBase):
             "p_inplace": r.choice([0.0, 0.15, 0.3]),
             "p_flush": r.choice([0.2, 0.5, 0.8]),
             "p_cache": r.choice([0.0, 0.1]),
-            "syms": r.choice([["Z2"], ["U1"], ["Z2Z2"], ["U1U1"], ["Z2", "U1"],
+            "syms": r.choice([["Z2"], ["U1"], ["Z2Z2"], ["U1U1"], ["Z2", "U1"], ["Z4"],
                               ["Z2", "U1", "Z2Z2", "U1U1"]]),
             "n_macro": r.choice([8, 12, 18]) if tier == "quick" else r.choice([12, 20, 30]),
             "wseed": r.randrange(2**31),
+            "max_charges": r.choice([3, 3, 3, 4, 5]),
+            "max_size": r.choice([3, 3, 3, 4]),
+            "p_ctor_phases": r.choice([0.0, 0.0, 0.15]),
         }
 
     def start(self, config):
@@ -88,7 +91,9 @@ class C09(EngineBase):
         if st.ctx is None:
             st.ctx = ops.Ctx(rng, kinds=("F",), syms=tuple(cfg["syms"]),
                              p_inplace=cfg["p_inplace"], sparsity=cfg["sparsity"],
-                             deny=("qr", "svd", "svd_truncated", "eigh"))
+                             deny=("qr", "svd", "svd_truncated", "eigh"),
+                             max_charges=cfg.get("max_charges", 3), max_size=cfg.get("max_size", 3))
+            st.ctx.p_ctor_phases = cfg.get("p_ctor_phases", 0.0)
             st.ctx.weights = ops.swarm_weights(random.Random(cfg["wseed"]),
                                                base=C09_OPS, p_off=0.2,
                                                keep=("new", "tensordot", "transpose", "phase"))
